@@ -226,14 +226,16 @@ namespace
   // prepare step): any cache or shared scratch keyed with a tolerance makes the second answer of a pair wrong.
   std::string engine_string(World &w) { std::stringstream ss; ss << w.get_random_number_engine(); return ss.str(); }
   const int NPAIRS = 4;
-  const int NOPS = 15;   // 0..7 pair queries (in,out)x4, 8: 2-D batched, 9: grains entry point, 10: construct W2, 11: query W2, 12: destroy W2,
+  const int NOPS = 17;   // 0..7 pair queries (in,out)x4, 8: 2-D batched, 9: grains entry point, 10: construct W2, 11: query W2, 12: destroy W2,
+                         // 15 / 16: hydrated oceanic plate ('tian water content' asks the world for the temperature) at ONE cartesian point with two different depth arguments
                          // 13: temperatures inside the second slab (mass conserving, spline of 5 points), 14: temperatures across the first slab (spline of 4 points)
   const char *PAIRN[NPAIRS] = {"continental-plate-west-edge", "mantle-layer-bottom", "slab-top-surface", "plume-rim"};
   std::string opname(int op)
   {
     if (op < 8) return std::string("W1.properties3d[T,c0,tag,vel] at ") + PAIRN[op/2] + (op % 2 ? "/outer-neighbour" : "/inner-neighbour");
     const char *n[] = {"W1.properties2d[vel,g12,T]", "W1.grains3d(0,3)", "construct W2 (spherical file across the dateline)", "W2.properties3d[T,c1,tag] at an aliased longitude", "destroy W2",
-                       "W1.temperature at 9 points in the second slab (mass conserving model with a 5-point spline)", "W1.temperature at 25 points across the first slab (mass conserving model with a 4-point spline)"
+                       "W1.temperature at 9 points in the second slab (mass conserving model with a 5-point spline)", "W1.temperature at 25 points across the first slab (mass conserving model with a 4-point spline)",
+                       "W1.properties3d[c1,c0,T] in the hydrated oceanic plate, depth argument 30 km", "W1.properties3d[c1,c0,T] at the same cartesian point, depth argument 55 km"
                       };
     return n[op-8];
   }
@@ -247,7 +249,7 @@ namespace
     std::string engine;
   };
   // W1: both slabs use the mass conserving model with splines of different sizes (a model that keeps a workspace between calls must not let one slab's samples leak into the other's)
-  std::string text_w1() { worlds::Opt o = opt_for(0); o.slab_model = 2; o.second_slab = true; return worlds::rich(o); }
+  std::string text_w1() { worlds::Opt o = opt_for(0); o.slab_model = 2; o.second_slab = true; o.water = true; return worlds::rich(o); }
   std::string text_w2() { worlds::Opt o; o.spherical = true; o.variant = 1; o.shift = 178; return worlds::rich(o); }
   P3 point_w2() { return query_point(true, 181.5, 0.5, 8e4); }
 
@@ -272,6 +274,7 @@ namespace
         for (double dx : {0.9e5, 1.2e5, 1.4e5}) for (double d : {1.3e5, 1.6e5, 1.9e5}) t.push_back(w1.temperature(query_point(false, -3.45e5 - dx, 3.5e5, d), d));
         return t;
       }
+    if (op == 15 || op == 16) return w1.properties(P3{{2.5e5, 2e5, CART_TOP - 3e4}}, op == 15 ? 3e4 : 5.5e4, {{{2,1,0}},{{2,0,0}},{{1,0,0}}});
     if (op == 14)
       {
         std::vector<double> t;
@@ -437,7 +440,7 @@ namespace
       }
     // canonical state reached by this history: all probe answers (each from ... the same objects), engine, W2 alive
     uint64_t h = 1469598103934665603ull;
-    for (int op : {0, 1, 2, 3, 4, 5, 6, 7, 8, 9, 14, 13})
+    for (int op : {0, 1, 2, 3, 4, 5, 6, 7, 8, 9, 14, 13, 16, 15})
       {
         const std::vector<double> got = do_op(*w1, nullptr, op, R, L2);
         h = fnv(got, h);
@@ -460,9 +463,9 @@ int main(int argc, char **argv)
   spec.property = "C01";
   spec.level = "model_checking";
   spec.rule = "batching suites: every request list of length <= L over an 8-atom alphabet x 6 rich worlds x all probe points (lattice, depths just above/at/below the surface, lines through the fault and the slab), each block compared bit-for-bit with the stand-alone "
-              "query through the same interface (non-trivial: list length >= 2 and at least one point inside a feature); history suites: every operation sequence of length <= D over 15 "
-              "operations (queries at 4 pairs of adjacent doubles straddling feature boundaries, 2-D batched query, grains entry point, construct/query/destroy a second, spherical world, temperature profiles through two slabs whose thermal models use splines of different sizes) "
-              "each replayed in a freshly exec'd process, canonical state = bit pattern of 12 probe answers + serialised RNG engine + W2 alive (non-trivial: every enabled sequence; distinct by construction)";
+              "query through the same interface (non-trivial: list length >= 2 and at least one point inside a feature); history suites: every operation sequence of length <= D over 17 "
+              "operations (queries at 4 pairs of adjacent doubles straddling feature boundaries, 2-D batched query, grains entry point, construct/query/destroy a second, spherical world, temperature profiles through two slabs whose thermal models use splines of different sizes, a hydrated plate at one cartesian point with two depth arguments) "
+              "each replayed in a freshly exec'd process, canonical state = bit pattern of 14 probe answers + serialised RNG engine + W2 alive (non-trivial: every enabled sequence; distinct by construction)";
   spec.assumptions = {"request alphabet: temperature, composition 0/1, grains (0,1) (0,3) (1,2), tag, velocity", "worlds without random models (random models are C15)",
                       "every explored trace is an implementation trace (no separate model)"
                      };
@@ -495,7 +498,7 @@ int main(int argc, char **argv)
         h.n = 1; for (unsigned k = 0; k < len; ++k) h.n *= NOPS;
         h.run = [len](uint64_t i, Ctx &c) { run_history(len, i, c); };
         h.fresh_process = true;
-        h.bound = "all operation sequences of length " + std::to_string(len) + " over 15 operations (4 boundary-straddling pairs of adjacent doubles, 2-D batched query, grains entry point, "
+        h.bound = "all operation sequences of length " + std::to_string(len) + " over 17 operations (4 boundary-straddling pairs of adjacent doubles, 2-D batched query, grains entry point, "
                   "construct/query/destroy a spherical world across the dateline, temperature profiles through two slabs with splines of different sizes); each sequence in a freshly exec'd process; disabled sequences skipped and counted";
         s.push_back(h);
       }
